@@ -26,7 +26,7 @@ MEM_BASE, MEM_PER_BYTE = 256 << 20, 64
 CPU_BASE, CPU_PER_BYTE = 20.0, 100e-6
 PROBES = ["limit_file_size_exact", "limit_file_size_disabled", "limit_file_grows_after_call", "limit_7z_archive_size", "limit_member_zip", "limit_member_tar",
           "limit_member_7z", "limit_member_duplicate_names", "amp_ods_repeat", "amp_odf_text_space_count", "amp_xlsx_dimension", "amp_entities", "amp_deep_nesting",
-          "amp_ratio_member", "amp_mbox_many_from", "amp_7z_lying_unpack_size", "amp_count_field_fault", "memory_error_under_cap", "scaling_pair"]
+          "amp_ratio_member", "amp_mbox_many_from", "amp_7z_lying_unpack_size", "amp_pdf_object_loop", "amp_count_field_fault", "memory_error_under_cap", "scaling_pair"]
 RULE = ("limit runs: files / archives / members of size L-1, L, L+1 around every explicit limit (max_file_size incl. 0 and a file that grows between "
         "call and consumption, the 100 MiB 7z limit, the per-member knob N in ZIP/TAR/7z incl. duplicate names) with the I/O event log proving "
         "that refused or skipped data was never opened, decompressed or written; amplifier runs: small documents built to amplify (ODS repeats, "
@@ -87,7 +87,7 @@ def gen_case(rng: random.Random, tier: str) -> dict:
             c["only_big"] = rng.random() < 0.2
         return c
     if r < 0.62:
-        fam = rng.choice(["ods_repeat", "ods_repeat", "ods_repeat", "text_space", "xlsx_dimension", "entities", "deep", "ratio_member", "mbox_from", "lying_7z"])
+        fam = rng.choice(["ods_repeat", "ods_repeat", "ods_repeat", "text_space", "xlsx_dimension", "entities", "deep", "ratio_member", "mbox_from", "lying_7z", "pdf_loop", "pdf_loop"])
         c = {"mode": "amp", "family": fam}
         if fam == "ods_repeat":
             c.update({"row_empty": rng.random() < 0.5, "cell_empty": rng.random() < 0.5, "cell_repeat": rng.choice([1, 3, 100, 101] + BIGS),
@@ -104,6 +104,8 @@ def gen_case(rng: random.Random, tier: str) -> dict:
                 c["depth"] = rng.choice([200, 900])  # the deep variants hit a listed finding and cost ~30 s of CPU each
         elif fam == "ratio_member":
             c.update({"fmt": rng.choice(["tar.gz", "tar.xz", "7z", "zip"]), "mb": rng.choice([5, 40, 150]), "ext": rng.choice(["txt", "bin"])})
+        elif fam == "pdf_loop":
+            c.update({"variant": rng.choice(PDF_LOOPS)})
         elif fam == "lying_7z":
             c.update({"mb": rng.choice([300, 500]) if tier != "quick" else 300, "method": rng.choice(["lzma", "lzma2"]), "declared": rng.choice([10, 1000])})
         else:
@@ -244,6 +246,9 @@ def build_amp(c) -> tuple[bytes, str, int]:
         from ..sevenz_writer import write_7z
         d = write_7z([{"name": "s.txt", "data": small}, {"name": name, "data": blob}], layout="per_file", method="lzma2")
         return d, "amp.7z", size
+    if fam == "pdf_loop":
+        d = build_pdf_loop(c["variant"])
+        return d, "amp.pdf", len(d)
     if fam == "lying_7z":
         # a folder whose stream expands far beyond the unpack size its header declares
         from ..sevenz_writer import write_7z
@@ -259,6 +264,55 @@ def build_amp(c) -> tuple[bytes, str, int]:
         d = one * c["n"]
         return d, "amp.mbox", len(d)
     raise ValueError(fam)
+
+
+def _mini_pdf(objs: dict[int, bytes], root: int = 1) -> bytes:
+    out = bytearray(b"%PDF-1.4\n")
+    offs = {}
+    for num in sorted(objs):
+        offs[num] = len(out)
+        out += b"%d 0 obj\n" % num + objs[num] + b"\nendobj\n"
+    xref = len(out)
+    n = max(objs) + 1
+    out += b"xref\n0 %d\n" % n + b"0000000000 65535 f \n"
+    for i in range(1, n):
+        out += (b"%010d 00000 n \n" % offs[i]) if i in offs else b"0000000000 65535 f \n"
+    out += b"trailer\n<< /Size %d /Root %d 0 R >>\nstartxref\n%d\n%%%%EOF\n" % (n, root, xref)
+    return bytes(out)
+
+
+def _stream(d: bytes, body: bytes) -> bytes:
+    return b"<< " + d + b" /Length %d >>\nstream\n" % len(body) + body + b"\nendstream"
+
+
+def build_pdf_loop(variant: str) -> bytes:
+    font = b"<< /Type /Font /Subtype /Type1 /BaseFont /Helvetica >>"
+    page = b"<< /Type /Page /Parent 2 0 R /MediaBox [0 0 200 200] /Contents 4 0 R /Resources << /Font << /F1 6 0 R >> /XObject << /X 5 0 R >> >> >>"
+    objs = {1: b"<< /Type /Catalog /Pages 2 0 R >>", 2: b"<< /Type /Pages /Kids [3 0 R] /Count 1 >>", 3: page,
+            4: _stream(b"", b"BT /F1 12 Tf 10 100 Td (hello loop) Tj ET /X Do"),
+            5: _stream(b"/Type /XObject /Subtype /Form /BBox [0 0 10 10]", b"BT /F1 8 Tf (inner) Tj ET"), 6: font}
+    if variant == "pages_self_cycle":
+        objs[2] = b"<< /Type /Pages /Kids [2 0 R 3 0 R] /Count 2 >>"
+    elif variant == "pages_two_cycle":
+        objs[2] = b"<< /Type /Pages /Kids [7 0 R 3 0 R] /Count 2 >>"
+        objs[7] = b"<< /Type /Pages /Parent 2 0 R /Kids [2 0 R] /Count 1 >>"
+    elif variant == "xobject_self_recursion":
+        objs[5] = _stream(b"/Type /XObject /Subtype /Form /BBox [0 0 10 10] /Resources << /XObject << /X 5 0 R >> /Font << /F1 6 0 R >> >>", b"BT /F1 8 Tf (inner) Tj ET /X Do")
+    elif variant == "contents_array_cycle":
+        objs[3] = page.replace(b"/Contents 4 0 R", b"/Contents [4 0 R 8 0 R]")
+        objs[8] = b"[4 0 R 8 0 R]"
+    elif variant == "outline_cycle":
+        objs[1] = b"<< /Type /Catalog /Pages 2 0 R /Outlines 9 0 R >>"
+        objs[9] = b"<< /Type /Outlines /First 10 0 R /Last 10 0 R /Count 1 >>"
+        objs[10] = b"<< /Title (a) /Parent 9 0 R /Next 10 0 R /First 10 0 R >>"
+    elif variant == "huge_count":
+        objs[2] = b"<< /Type /Pages /Kids [3 0 R] /Count 2000000000 >>"
+    elif variant == "indirect_length_cycle":
+        objs[4] = b"<< /Length 4 0 R >>\nstream\nBT (x) Tj ET\nendstream"
+    return _mini_pdf(objs)
+
+
+PDF_LOOPS = ["plain", "pages_self_cycle", "pages_two_cycle", "xobject_self_recursion", "contents_array_cycle", "outline_cycle", "huge_count", "indirect_length_cycle"]
 
 
 def build_scaling(fam: str, n: int) -> tuple[bytes, str]:
@@ -405,6 +459,8 @@ def _family_sig(case) -> str:
             return f"entities|{case['target']}"
         if f == "lying_7z":
             return f"lying_7z|{case['method']}"
+        if f == "pdf_loop":
+            return f"pdf_loop|{case['variant']}"
         if f == "ratio_member":
             return f"ratio_member|{case['fmt']}|{case['ext']}"
         return f
@@ -641,7 +697,7 @@ def run_case(case: dict) -> dict:
     elif case["mode"] == "amp":
         data, route, U = build_amp(case)
         probes[{"ods_repeat": "amp_ods_repeat", "text_space": "amp_odf_text_space_count", "xlsx_dimension": "amp_xlsx_dimension", "entities": "amp_entities",
-                "deep": "amp_deep_nesting", "ratio_member": "amp_ratio_member", "mbox_from": "amp_mbox_many_from", "lying_7z": "amp_7z_lying_unpack_size"}[case["family"]]] = 1
+                "deep": "amp_deep_nesting", "ratio_member": "amp_ratio_member", "mbox_from": "amp_mbox_many_from", "lying_7z": "amp_7z_lying_unpack_size", "pdf_loop": "amp_pdf_object_loop"}[case["family"]]] = 1
         outcome, peak, cpu = _run_budgeted(case, data, route, U, viol, probes, log)
         nontriv = [f"{_family_sig(case)}|{outcome.split(':')[0]}"]
         faults[case["family"]] = 1
